@@ -21,6 +21,7 @@ LEVEL_TEXT = (
     "stacked residuals must evaluate each part on its own coefficients, the TS1-of-ODE constraint must be identical to the residual "
     "constraint, and every linearised constraint (3 factorisations) must reproduce value and (full / per-dimension / trace-averaged) "
     "Jacobian at its linearisation point."
+    " An ODE lifted further than the state's coefficients support must be rejected by linearize() in every factorisation."
 )
 LEVEL_NOTE = "Trusted: exact Fraction arithmetic; closed-form polynomial Jacobians; tolerance 256 eps x sum of absolute terms (lifting), 1e-10 (linearisation)."
 RULE = (
